@@ -84,6 +84,16 @@ def build():
                 v = ast.unparse(node.value)
                 if v.startswith("float("):
                     problems.append(f"L{node.lineno}: row[k] = {v} stores the float without a finiteness test")
+        # a field that is coerced becomes the double float() reads from it (cells hold doubles: any other numeric type - an int of 20, 34
+        # or 40 digits - is stored as something else than the number the text denotes, or not at all)
+        for node in ast.walk(fn):
+            if isinstance(node, ast.Assign) and isinstance(node.targets[0], ast.Subscript) and ast.unparse(node.targets[0]) == "row[k]" \
+                    and isinstance(node.value, ast.Name):
+                src_name = node.value.id
+                defs = [a.value for a in ast.walk(fn) if isinstance(a, ast.Assign) and any(isinstance(t, ast.Name) and t.id == src_name for t in a.targets)]
+                for d in defs:
+                    if not (isinstance(d, ast.Call) and ast.unparse(d.func) == "float"):
+                        problems.append(f"L{d.lineno}: row[k] receives `{ast.unparse(d)[:80]}`: a coerced field must be the result of float(...)")
         floats = [n for n in ast.walk(fn) if isinstance(n, ast.Call) and ast.unparse(n.func) == "float"]
         finite = [n for n in ast.walk(fn) if isinstance(n, ast.If) and "math.isfinite" in ast.unparse(n.test)]
         if floats and not finite:
